@@ -8,7 +8,10 @@ func patchAll(n JsonNode, d Diff) (JsonNode, error) {
 	var err error
 	for _, de := range d {
 		strategy := path(de.Path).getPatchStrategy()
-		n, err = n.patch(make(path, 0), de.Path, de.OldValues, de.NewValues, strategy)
+		// The new values become part of the patched document, which later
+		// elements may patch in place. Hand over copies so that applying a
+		// diff never changes the diff.
+		n, err = n.patch(make(path, 0), de.Path, de.OldValues, cloneNodes(de.NewValues), strategy)
 		if err != nil {
 			return nil, err
 		}
@@ -114,4 +117,38 @@ func patchErrUnsupportedPatchStrategy(path path, strategy patchStrategy) (JsonNo
 	return nil, fmt.Errorf(
 		"unsupported patch strategy %v at %v",
 		strategy, path)
+}
+
+// cloneNodes returns deep copies of the given nodes (containers are
+// copied, scalars are immutable and shared).
+func cloneNodes(nodes []JsonNode) []JsonNode {
+	if nodes == nil {
+		return nil
+	}
+	c := make([]JsonNode, len(nodes))
+	for i, n := range nodes {
+		c[i] = cloneNode(n)
+	}
+	return c
+}
+
+func cloneNode(n JsonNode) JsonNode {
+	switch t := n.(type) {
+	case jsonObject:
+		c := make(jsonObject, len(t))
+		for k, v := range t {
+			c[k] = cloneNode(v)
+		}
+		return c
+	case jsonArray:
+		return jsonArray(cloneNodes(t))
+	case jsonList:
+		return jsonList(cloneNodes(t))
+	case jsonSet:
+		return jsonSet(cloneNodes(t))
+	case jsonMultiset:
+		return jsonMultiset(cloneNodes(t))
+	default:
+		return n
+	}
 }
